@@ -115,7 +115,7 @@ func main() {
 	wg.Wait()
 
 	sw := &common.ShardWriter{Dir: *out, RunMod: "Regen.Ledger.Types Regen.Query.Queries Regen.Cases.LedgerRun Regen.Cases.QueryRun", CaseType: "qcase", PerShard: *perShard,
-		Preamble: "Require Import Regen.Base.Calendar Regen.Dec.Dec.\nOpen Scope Z_scope.\n"}
+		Preamble: "Require Import Regen.Base.Calendar Regen.Dec.Dec.\nRequire Regen.Data.Iri Regen.Cases.DataRun.\nOpen Scope Z_scope.\n"}
 	cases := map[string]interface{}{}
 	hist := map[string]int{}
 	var violations []common.MonitorViolation
